@@ -410,8 +410,19 @@ func (w *world) doStep() bool {
 		if len(bundles) > 1 && r.Bool() {
 			p = append(append([]string{}, core.Pick(r, bundles)...), p...)
 		}
-		rep, _ := w.cl.Call(411, pathField(p), rc.F(326, rc.U32(1)))
-		w.log = append(w.log, fmt.Sprintf("delete-article on missing category %q -> %v", p, rep))
+		aid := uint32(1)
+		if len(cats) > 0 && r.Bool() {
+			// the missing element sits in the middle: what follows it names a category that does exist one level up,
+			// and the article id is one that category really holds
+			real := core.Pick(r, cats)
+			p = append(append(append([]string{}, real[:len(real)-1]...), "ghost-"+w.genName()), real[len(real)-1])
+			for id := range w.find(real).arts {
+				aid = id
+				break
+			}
+		}
+		rep, _ := w.cl.Call(411, pathField(p), rc.F(326, rc.U32(int(aid))))
+		w.log = append(w.log, fmt.Sprintf("delete-article %d on missing category %q -> %v", aid, p, rep))
 	case "reload":
 		st, ok := w.srv.S.ThreadedNewsMgr.(*verifshim.ThreadedNewsYAML)
 		if !ok {
